@@ -197,7 +197,7 @@ InTest(v, t, sc) ==
   ELSE LET w == Eval(t, sc) IN
        IF IsU(w) \/ v.k = "list" THEN Unspec           \* a list as input value: membership or equality? not settled
        ELSE IF w.k = "list" THEN
-          (LET r == [i \in 1..Len(w.items) |-> Eq3(v, w.items[i])] IN
+          (LET r == [i \in 1..Len(w.items) |-> IF w.items[i].k = "null" THEN Unspec ELSE Eq3(v, w.items[i])] IN     \* (a null member: as unsettled as `x in null`)
            IF \E i \in 1..Len(w.items) : r[i] = Bool(TRUE) THEN Bool(TRUE)
            ELSE IF \A i \in 1..Len(w.items) : r[i] = Bool(FALSE) THEN Bool(FALSE) ELSE Unspec)
        ELSE LET r == Eq3(v, w) IN IF r.k = "bool" /\ w.k # "null" THEN r ELSE Unspec      \* null input / incomparable kinds: unspecified
